@@ -145,6 +145,9 @@ impl<T: Elem> USet for W64<T> {
     fn new() -> Self {
         W64(Set64::new())
     }
+    fn dflt() -> Self {
+        W64(Default::default())
+    }
     fn wcb(cap: usize, _bits: u64) -> Self {
         W64(Set64::with_capacity(cap))
     }
@@ -374,6 +377,9 @@ impl USet for WUsize {
     }
     fn new() -> Self {
         WUsize(SetUsize::new())
+    }
+    fn dflt() -> Self {
+        WUsize(Default::default())
     }
     fn wcb(_cap: usize, _bits: u64) -> Self {
         WUsize(SetUsize::new())
